@@ -39,7 +39,7 @@ def t_alpha(fx):
 
 
 def t_noise(fx):
-    tid = fx["types"].index("usize")
+    tid = fx["types"].index("()")
     n = 0
     for fn in fx["fns"].values():
         for x in list(_walk(fn.get("body"))):
@@ -48,12 +48,12 @@ def t_noise(fx):
                 for s in x["stmts"]:
                     n += 1
                     new.append({"k": "let", "pat": {"k": "bind", "name": "_noise%d" % n, "hid": 5000000 + n, "mode": "BindingMode(No, Not)", "t": tid},
-                                "init": {"k": "lit", "v": "0", "t": tid}, "els": None, "line": s.get("line")})
+                                "init": {"k": "tup", "xs": [], "t": tid}, "els": None, "line": s.get("line")})
                     new.append(s)
                 if x["tail"] is not None and x["stmts"]:
                     n += 1
                     new.append({"k": "let", "pat": {"k": "bind", "name": "_noise%d" % n, "hid": 5000000 + n, "mode": "BindingMode(No, Not)", "t": tid},
-                                "init": {"k": "lit", "v": "0", "t": tid}, "els": None, "line": None})
+                                "init": {"k": "tup", "xs": [], "t": tid}, "els": None, "line": None})
                 x["stmts"] = new
     return n
 
